@@ -522,10 +522,10 @@ def b_ifun(f, env, types):
     return InterpretedFunction(f["name"], b_type(f["ret"], env, types), sig, fn, env)
 
 
-def build(P, env=None, name=None):
+def build(P, env=None, name=None, problem_cls=None):
     """UPJ -> UP Problem, through the public model-building API only."""
     env = env or up.environment.get_environment()
-    problem = Problem(name or P.get("name") or "p", env)
+    problem = (problem_cls or Problem)(name or P.get("name") or "p", env)
     tm = env.type_manager
     types = {}
     pending = list(P["types"])
@@ -584,13 +584,20 @@ def b_action(a, sc):
     from collections import OrderedDict
 
     params = OrderedDict((p["name"], b_type(p["type"], env, sc.types)) for p in a["params"])
-    if a["kind"] == "inst":
-        act = InstantaneousAction(a["name"], params, env)
+    if a["kind"] in ("inst", "sense"):
+        if a["kind"] == "sense":
+            from unified_planning.model.contingent.sensing_action import SensingAction
+
+            act = SensingAction(a["name"], params, env)
+        else:
+            act = InstantaneousAction(a["name"], params, env)
         sca = sc.with_params({p.name: p for p in act.parameters})
         for c in a["pre"]:
             act.add_precondition(b_expr(c, sca))
         for ef in a["effects"]:
             b_effect(act, ef, sca)
+        for ob in a.get("observed", []):
+            act.add_observed_fluent(b_expr(ob, sca))
         return act
     act = DurativeAction(a["name"], params, env)
     sca = sc.with_params({p.name: p for p in act.parameters})
